@@ -1276,6 +1276,92 @@ def _strip_bool_in_tests(mods: dict[str, Module], log: list[str]) -> None:
         log.append(f"{n} test(s): bool(e) read as e")
 
 
+def _inline_local_closures(mods: dict[str, Module], log: list[str]) -> None:
+    """A local closure that is a single expression (`def labels(v): return [v] * n`, or `labels = lambda v: [v] * n`) and is only ever *called*
+    in the enclosing function is read at its call sites as that expression (arguments substituted); closures passed around as values stay."""
+    for mod in mods.values():
+        for q, _, fn in _functions_of(mod):
+            for _round in range(4):
+                done = False
+                for holder in [n for n in ast.walk(fn) if isinstance(getattr(n, "body", None), list)]:
+                    for st in list(holder.body):
+                        name = params = expr = None
+                        if isinstance(st, ast.FunctionDef) and st is not fn and not st.decorator_list and not st.args.vararg and not st.args.kwarg and not st.args.kwonlyargs:
+                            body = [b for b in st.body if not (isinstance(b, ast.Expr) and isinstance(b.value, ast.Constant))]
+                            if len(body) == 1 and isinstance(body[0], ast.Return) and body[0].value is not None:
+                                name, params, expr = st.name, [a.arg for a in [*st.args.posonlyargs, *st.args.args]], body[0].value
+                                defaults = dict(zip(params[len(params) - len(st.args.defaults):], st.args.defaults)) if st.args.defaults else {}
+                        elif isinstance(st, ast.Assign) and len(st.targets) == 1 and isinstance(st.targets[0], ast.Name) and isinstance(st.value, ast.Lambda) \
+                                and not st.value.args.vararg and not st.value.args.kwarg and not st.value.args.kwonlyargs:
+                            lam = st.value
+                            name, params, expr = st.targets[0].id, [a.arg for a in [*lam.args.posonlyargs, *lam.args.args]], lam.body
+                            defaults = dict(zip(params[len(params) - len(lam.args.defaults):], lam.args.defaults)) if lam.args.defaults else {}
+                        if name is None or any(isinstance(x, (ast.Yield, ast.YieldFrom, ast.Await, ast.NamedExpr, ast.Lambda)) for x in ast.walk(expr)):
+                            continue
+                        # every other occurrence of the name must be the callee of a call, after the definition; the name is bound once
+                        occ = [x for x in ast.walk(fn) if isinstance(x, ast.Name) and x.id == name]
+                        stores = [x for x in occ if isinstance(x.ctx, ast.Store)]
+                        defs = [x for x in ast.walk(fn) if isinstance(x, ast.FunctionDef) and x.name == name and x is not fn]
+                        if len(stores) + len(defs) != 1:
+                            continue
+                        calls = [c for c in ast.walk(fn) if isinstance(c, ast.Call) and isinstance(c.func, ast.Name) and c.func.id == name]
+                        loads = [x for x in occ if isinstance(x.ctx, ast.Load)]
+                        if not calls or len(loads) != len(calls) or any(any(x is c for x in ast.walk(st)) for c in calls):
+                            continue
+                        # the free variables of the closure must not be re-bound between definition and calls: keep to closures whose free names are bound once in fn
+                        free = {x.id for x in ast.walk(expr) if isinstance(x, ast.Name) and x.id not in params}
+                        rebound = {x.id for x in ast.walk(fn) if isinstance(x, ast.Name) and isinstance(x.ctx, ast.Store) and x.id in free}
+                        multi = {nm for nm in rebound if sum(1 for x in ast.walk(fn) if isinstance(x, ast.Name) and isinstance(x.ctx, ast.Store) and x.id == nm) > 1}
+                        if multi:
+                            continue
+                        ok = True
+                        plans = []
+                        for c in calls:
+                            if any(isinstance(a, ast.Starred) for a in c.args) or any(k.arg is None for k in c.keywords) or len(c.args) > len(params):
+                                ok = False
+                                break
+                            b = dict(zip(params, c.args))
+                            for k in c.keywords:
+                                if k.arg in b or k.arg not in params:
+                                    ok = False
+                                b[k.arg] = k.value  # type: ignore[index]
+                            for p_ in params:
+                                if p_ not in b:
+                                    if p_ in defaults:
+                                        b[p_] = defaults[p_]
+                                    else:
+                                        ok = False
+                            if not ok:
+                                break
+                            for p_, a in b.items():
+                                uses = sum(1 for x in ast.walk(expr) if isinstance(x, ast.Name) and x.id == p_)
+                                if not (_simple(a) or uses <= 1 or _pure(a)):
+                                    ok = False
+                            plans.append((c, b))
+                        if not ok:
+                            continue
+
+                        class Repl(ast.NodeTransformer):
+                            def visit_Call(self, node: ast.Call):  # noqa: N802
+                                self.generic_visit(node)
+                                for c, b in plans:
+                                    if node is c:
+                                        return ast.copy_location(_Subst(b).visit(_clone(expr)), node)
+                                return node
+                        holder.body.remove(st)
+                        if not holder.body:
+                            holder.body.append(ast.Pass())
+                        Repl().visit(fn)
+                        ast.fix_missing_locations(fn)
+                        log.append(f"{mod.relpath} {q}: local closure {name}() read at its {len(calls)} call site(s)")
+                        done = True
+                        break
+                    if done:
+                        break
+                if not done:
+                    break
+
+
 def _split_conditional_with(mods: dict[str, Module], log: list[str]) -> None:
     """`with f(x, mode=A if c else B) as v: body` with a pure test `c` is read as `if c: with f(.., A): body else: with f(.., B): body`, and inside a branch
     taken under `c` (resp. `not c`) a nested `if c:` keeps only the branch that can run."""
@@ -1826,6 +1912,7 @@ def canonicalise(mods: dict[str, Module]) -> dict:
     _cm_to_generator(mods, cm_log)
     _inline_new_constants(mods, inv, cm_log)
     align_locals(mods, inv, loc_log)
+    _inline_local_closures(mods, cm_log)
     inl = Inliner(mods, inv)
     inl.run()
     fwd_log: list[str] = []
@@ -1849,8 +1936,20 @@ def canonicalise(mods: dict[str, Module]) -> dict:
                 for child in ast.iter_child_nodes(node):
                     child._parent = node  # type: ignore[attr-defined]
             mod.tree._parent = None  # type: ignore[attr-defined]
+    # every function of the current tree that the reference inventory does not know (whether or not it could be inlined)
+    new_functions: list[str] = []
+    for mod in mods.values():
+        old = inv["modules"].get(mod.name)
+        for node in mod.tree.body:
+            if isinstance(node, FuncNode) and (old is None or node.name not in old["functions"]):
+                new_functions.append(f"{mod.name}:{node.name}")
+            elif isinstance(node, ast.ClassDef):
+                oc = old["classes"].get(node.name) if old is not None else None
+                for x in node.body:
+                    if isinstance(x, FuncNode) and (oc is None or x.name not in oc["methods"]):
+                        new_functions.append(f"{mod.name}:{node.name}.{x.name}")
     return {"renamed_back": {k: v for k, v in sorted(ren.items())}, "locals": loc_log[:40], "inlined": inl.log[:40], "substituted": fwd_log[:60],
-            "new_helpers": sorted(f"{k[0]}:{(k[1] + '.') if k[1] else ''}{k[2]}" for k in inl.helpers)}
+            "new_helpers": sorted(set(new_functions) | {f"{k[0]}:{(k[1] + '.') if k[1] else ''}{k[2]}" for k in inl.helpers})}
 
 
 def main() -> int:
